@@ -505,7 +505,7 @@ def build_all(run, audit_file, translator=True):
 
 def model_eval(run, tag, exprs):
     try:
-        return coqtools.coq_eval(tag, IMPORTS, exprs, shard=max(10, min(60, len(exprs) // 16 + 1)))
+        return coqtools.coq_eval(tag, IMPORTS, exprs, shard=max(30, min(120, len(exprs) // 8 + 1)))
     except RuntimeError as e:
         run.tie_broken("model evaluation (coqc cases)", str(e))
         return [None] * len(exprs)
